@@ -98,6 +98,13 @@ Definition event_eqb (a c : event) : bool :=
   | _, _ => false
   end.
 
+(* the keys of the access-log context built by on_client_connection_close (values blanked by the harness) *)
+Definition std_ctx : ctx :=
+  map (fun k => (k, @nil N))
+      [bs "client_ip"; bs "client_port"; bs "server_host"; bs "server_port"; bs "connection_time_ms"; bs "request_method";
+       bs "request_path"; bs "request_bytes"; bs "request_ua"; bs "request_version"; bs "response_bytes"; bs "response_code";
+       bs "response_reason"].
+
 Inductive case :=
 (* AuthPlugin.before_upstream_connection on a request with these raw header lines: accepted? *)
 | CAuth (code : bytes) (lines : list bytes) (accepted : bool)
